@@ -6,6 +6,9 @@
   tables                         → preGate=<hexlist> guarded=<hexlist> unknown=<hexlist> allow=<name-hex>:<arm>|… default=<0|1> first=<0|1> names=<n> unreadable=<n> deferral=<absent|blocked-only|unknown> cliRule=<if-given|always|unknown> idStart=<n> subIds=<n|n…>
   names                          → `|`-joined hex of Gen.allCommandNames
   unreadable                     → what the translator could not read (`.` = nothing), entries separated by ` ;; `
+  configlines <cli-hexlist> <file-lines-hexlist> <given-values-hexlist> → code=<hex|none|unknown> spec=<hex|none>   the same with the raw LINES of the
+                                   configuration file, parsed by `Code.parseConfigLine` (unknown: Gen.configLineGrammar is not the modelled one — no
+                                   predictions for this server); `given` = the values the requirepass lines were written to carry (Spec)
   reset <password-hex|none>      → ok                         (empty dataset, no connections)
   config <cli-hexlist> <file-hexlist> → code=<hex|none> spec=<hex|none>   fresh server GIVEN these `--requirepass`/`--password` values and these
                                    `requirepass` lines (in order): the password the code ends up with (Gen.cliPasswordRule) and the one the
@@ -56,6 +59,8 @@ structure St where
   specAuthed : List Nat := []
   /-- the Spec's own password: what the server was GIVEN (`Spec.configuredPassword`), whatever the code made of it -/
   specPassword : Option Bytes := none
+  /-- this server was configured through a part of the source the translator could not read: no predictions -/
+  noPred : Bool := false
 
 def showState : Option CState → String
   | none => "none"
@@ -133,7 +138,7 @@ def isUnknown : Req → Bool
 def doFrame (st : St) (c : Nat) (req : Req) : St × String × String :=
   let (verdict, nowAuthed) := specVerdict st c req
   -- no prediction: the model state stays, the Spec's own record of who presented the password is kept up to date
-  if isUnknown req then ({ st with specAuthed := if nowAuthed then c :: st.specAuthed else st.specAuthed }, "unknown", verdict) else
+  if isUnknown req || st.noPred then ({ st with specAuthed := if nowAuthed then c :: st.specAuthed else st.specAuthed }, "unknown", verdict) else
   let (s', r) := Code.processConnectionFrame tree disp st.s c req
   ({ st with s := s', specAuthed := if nowAuthed then c :: st.specAuthed else st.specAuthed }, showClass r, verdict)
 
@@ -146,6 +151,19 @@ def step (st : St) (ws : List String) : St × String :=
       s!" unreadable={Gen.unreadable.length + (if cliRule.isNone || !Gen.passwordSourcesUnderstood then 1 else 0)} deferral={(Gen.deferral.splitOn ":").head!}" ++
       s!" cliRule={(Gen.cliPasswordRule.splitOn ":").head!} idStart={Gen.connIdStart} subIds=" ++
       (if Gen.substituteConnIds.isEmpty then "." else String.intercalate "|" (Gen.substituteConnIds.map toString)))
+  | ["configlines", cli, lines, given] =>
+    -- a fresh server started with these command-line passwords and a configuration file with these LINES; `given`: the values
+    -- the file's requirepass lines were written to carry (the Spec: a value the grammar can express is in force as written)
+    match parseHexList cli, parseHexList lines, parseHexList given with
+    | some cli, some lines, some given =>
+      let understood := Gen.configLineGrammar = "rest-of-line-trimmed"
+      let p := Code.effectivePassword (cliRule.getD .ifGiven) cli (Code.filePasswords false lines)
+      let sp := Spec.configuredPassword cli given
+      ({ s := { password := p, conns := [], store := KS.emptyStore, subs := [], replicas := [], monitors := [] }, specPassword := sp,
+         noPred := !understood },
+       (if !understood then "code=unknown" else match p with | some b => "code=" ++ toHex b | none => "code=none") ++ " " ++
+       (match sp with | some b => "spec=" ++ toHex b | none => "spec=none"))
+    | _, _, _ => (st, "bad-op")
   | ["names"] => (st, hexList (Gen.allCommandNames.map nameBytes))
   | ["unreadable"] => (st, if Gen.unreadable.isEmpty && Gen.preGateUnknownGuard.isEmpty then "." else
       String.intercalate " ;; " (Gen.unreadable ++ Gen.preGateUnknownGuard.map fun p => s!"preGate guard of {p.1}: {p.2}"))
